@@ -514,10 +514,10 @@ def gen_cases(tier, seed, count=None):
     cases = []
     for i in range(count):
         style = gen.POINT_STYLES[i % 6]
-        r = i % 4
-        if r == 0:
+        r = rng.uniform()
+        if r < 0.3:
             n = int(rng.integers(2, 6))          # multigraph sizes
-        elif r == 1:
+        elif r < 0.6:
             n = int(rng.integers(6, 14))         # around the padding switch at N=10
         else:
             n = int(rng.integers(2, nmax + 1))
